@@ -174,6 +174,7 @@ def getNsOp (j : Json) : Option NsOp :=
   | .arr #[.str "remove", n, .str p] => some (.remove (getNat n) p)
   | .arr #[.str "set", n, d] => some (.setNsmap (getNat n) (getDict d))
   | .arr #[.str "share", n, m] => some (.share (getNat n) (getNat m))
+  | .arr #[.str "fix", n] => some (.fix (getNat n))
   | _ => none
 
 def dictJson (d : Dict) : Json := .arr (d.map (fun kv => Json.arr #[.str kv.1, .str kv.2])).toArray
